@@ -120,4 +120,36 @@ inductive SessBuild
   | panic
 deriving DecidableEq, Repr
 
+/-! ### scripts over a real network endpoint (`Endpoint::connect` / `connect_lazy`) -/
+
+/-- One step of a script against a real listening socket (loopback TCP port, unix socket). -/
+inductive NOp
+  /-- a server starts listening on the endpoint's address (a new server generation) -/
+  | up
+  /-- the server goes away: the listener is closed and its connections are dropped -/
+  | down
+  /-- the application issues one call and waits for its result -/
+  | call
+deriving DecidableEq, Repr
+
+/-- What the caller of one call sees; `gen` is the server generation that answered. -/
+inductive NRes
+  | resp (gen : Nat)
+  | error (code : Nat)
+  | hang
+  | garbled
+deriving DecidableEq, Repr
+
+/-- `Endpoint::connect()` / `connect_lazy()`. -/
+inductive NBuild
+  | ok
+  | error (code : Nat)
+  | hang
+deriving DecidableEq, Repr
+
+structure NTrace where
+  build : NBuild
+  evs : List NRes
+deriving DecidableEq, Repr
+
 end ConnScript
